@@ -3,7 +3,7 @@ use crate::cx::*;
 use crate::glue::*;
 use crate::prop::*;
 use crate::spec::*;
-use rl2tp::avp::types::result_code::{CdnCode, CodeValue, ErrorType, StopCcnCode};
+use rl2tp::avp::types::result_code::{CodeValue, ErrorType};
 use rl2tp::avp::types::{MessageType, ProxyAuthenType};
 use rl2tp::avp::AVP;
 use serde_json::{json, Value};
@@ -326,30 +326,6 @@ fn check_named(i: u64, cx: &mut Cx) -> Res {
         (ProxyAuthenType::NoAuthentication, 4),
         (ProxyAuthenType::MicrosoftChapVersion1, 5),
     ];
-    let sc: [(StopCcnCode, u16); 8] = [
-        (StopCcnCode::Reserved, 0),
-        (StopCcnCode::GeneralRequestToClearControlConnection, 1),
-        (StopCcnCode::GeneralError, 2),
-        (StopCcnCode::ControlChannelAlreadyExists, 3),
-        (StopCcnCode::RequesterNotAuthorizedToEstablishControlChannel, 4),
-        (StopCcnCode::RequesterProtocolVersionUnsupported, 5),
-        (StopCcnCode::RequesterShutdown, 6),
-        (StopCcnCode::FsmError, 7),
-    ];
-    let cd: [(CdnCode, u16); 12] = [
-        (CdnCode::Reserved, 0),
-        (CdnCode::CallDisconnectedLossOfCarrier, 1),
-        (CdnCode::CallDisconnectedWithErrorCode, 2),
-        (CdnCode::CallDisconnectedAdministrative, 3),
-        (CdnCode::CallFailedTemporarilyUnavailable, 4),
-        (CdnCode::CallFailedPermanentlyUnavailable, 5),
-        (CdnCode::InvalidDestination, 6),
-        (CdnCode::CallFailedNoCarrier, 7),
-        (CdnCode::CallFailedBusySignal, 8),
-        (CdnCode::CallFailedNoDialTone, 9),
-        (CdnCode::CallEstablishTimeout, 10),
-        (CdnCode::CallNoFramingDetected, 11),
-    ];
     let i = i as usize;
     let bad = |what: String| fail(what, json!({"named_index": i}));
     if i < 14 {
@@ -374,25 +350,40 @@ fn check_named(i: u64, cx: &mut Cx) -> Res {
             Some(e) if e == avp_bytes(1, 29, &n.to_be_bytes()) => {}
             other => return bad(format!("ProxyAuthenType::{:?} does not encode to RFC number {}: {:?}", v, n, other.map(|e| hex(&e)))),
         }
-    } else if i < 37 {
-        let (v, n) = sc[i - 29];
-        let cv = CodeValue::from(v);
-        if u16::from(cv) != n || format!("{:?}", v) != STOP_NAMES[n as usize] {
-            return bad(format!("StopCcnCode::{:?} converts to {} (RFC number {})", v, u16::from(cv), n));
-        }
-        match enc(AVP::ResultCode(rl2tp::avp::types::ResultCode { code: cv, error: None })) {
-            Some(e) if e == avp_bytes(1, 1, &n.to_be_bytes()) => {}
-            other => return bad(format!("StopCcnCode::{:?} does not encode to RFC number {}: {:?}", v, n, other.map(|e| hex(&e)))),
-        }
     } else {
-        let (v, n) = cd[i - 37];
-        let cv = CodeValue::from(v);
-        if u16::from(cv) != n || format!("{:?}", v) != CDN_NAMES[n as usize] {
-            return bad(format!("CdnCode::{:?} converts to {} (RFC number {})", v, u16::from(cv), n));
+        // Stop-CCN / CDN named values are looked up by *name* among all convertible codes (no compile-time dependency
+        // on the variant list: a missing or renumbered variant is a violation, not a build failure)
+        let (stop, n) = if i < 37 { (true, (i - 29) as u16) } else { (false, (i - 37) as u16) };
+        let name = if stop { STOP_NAMES[n as usize] } else { CDN_NAMES[n as usize] };
+        let r = guard(|| {
+            let mut found: Vec<(u16, u16)> = Vec::new(); // (code that converts to the named value, number the named value converts back to)
+            for x in 0..=65535u16 {
+                let cv = CodeValue::from(x);
+                if stop {
+                    if let Ok(v) = cv.as_stop_ccn() {
+                        if format!("{:?}", v) == name {
+                            found.push((x, u16::from(CodeValue::from(v))));
+                        }
+                    }
+                } else if let Ok(v) = cv.as_cdn() {
+                    if format!("{:?}", v) == name {
+                        found.push((x, u16::from(CodeValue::from(v))));
+                    }
+                }
+            }
+            found
+        });
+        let found = match r {
+            Caught::Ok(f) => f,
+            _ => return bad(format!("looking up the named value {} panicked", name)),
+        };
+        if found != vec![(n, n)] {
+            return bad(format!("{} value {}: RFC number {}, but the codes converting to it / the number it converts to are {:?}", if stop { "Stop-CCN" } else { "CDN" }, name, n, found));
         }
+        let cv = CodeValue::from(n);
         match enc(AVP::ResultCode(rl2tp::avp::types::ResultCode { code: cv, error: None })) {
             Some(e) if e == avp_bytes(1, 1, &n.to_be_bytes()) => {}
-            other => return bad(format!("CdnCode::{:?} does not encode to RFC number {}: {:?}", v, n, other.map(|e| hex(&e)))),
+            other => return bad(format!("{} does not encode to RFC number {}: {:?}", name, n, other.map(|e| hex(&e)))),
         }
     }
     Ok(())
